@@ -40,9 +40,10 @@ def make_cases(seed, n_per_kernel, names, W=8):
         nin, tweak, pred = S[name]
         for _ in range(n_per_kernel):
             ins = [[gen_lane(rng, tweak, k) for _ in range(W)] for k in range(nin)]
-            if name.startswith("mult_avx512") and rng.below(4) == 0 and tweak is None:
+            sel = rng.below(4)
+            if (name.startswith("mult_avx512") or name.startswith("square") or name.startswith("reduce")) and sel < 2 and tweak is None and nin >= 2:
                 for j in range(W):
-                    ins[0][j], ins[1][j] = gen_pair_mul_band(rng)
+                    ins[0][j], ins[1][j] = gen_pair_mul_band(rng) if sel == 0 else gen_pair_limbs(rng)
             line = name + " " + " ".join(hx(v) for reg in ins for v in reg)
 
             def expect(vals, ins=ins, pred=pred, nin=nin):
@@ -68,6 +69,7 @@ def run(tier, seed):
     drv, err = build_driver()
     if err:
         res.broken.append(("model driver build", err))
+        drv = NO_MODEL
     names = (st.get("modules", {}).get("Avx512", {}) or {}).get("names", [])
     missing = [k for k in specs() if k not in names]
     if missing:
